@@ -56,7 +56,7 @@ def main():
         })
     manifest = {
         "version": 1,
-        "setup_cmd": "cd /verif/harness && GOPROXY=off GOFLAGS=-mod=mod go build -tags verif -o /dev/null ./cmd/worker && python3 -c 'import sys; sys.path.insert(0, \"/verif/lib\"); import proptable, orchestrator'",
+        "setup_cmd": "cd /verif/harness && export GOPROXY=off GOFLAGS=-mod=mod && go build -tags verif -o /dev/null ./cmd/worker && go build -tags verif -race -o /dev/null ./cmd/worker && go build -tags verif -gcflags=all=-d=checkptr -o /dev/null ./cmd/worker && python3 -c 'import sys; sys.path.insert(0, \"/verif/lib\"); import proptable, orchestrator'",
         "hooks": {
             "guard": "verif",
             "enable": "go build -tags verif (the harness module resolves github.com/Clement-Jean/go-art by replace => /repo, so every check rebuilds the library from the current working tree)",
